@@ -138,9 +138,11 @@ type node struct {
 	started  atomic.Bool
 	gate     func(hs []util.Uint256) // called (in the service's goroutine) before the node's RequestTx is executed
 	onOwn    func(n *node, e *payload.Extensible)
+	copyID   func(e *payload.Extensible) string
 	h0       int
 	qmu      sync.Mutex
 	queuedH  map[int]bool
+	stopped  atomic.Bool
 	gateMu   sync.Mutex
 	closed   bool
 	accepted atomic.Int64
@@ -153,6 +155,8 @@ type nodeOpts struct {
 	bcast    int // BroadcastFactor
 	extCap   int
 	onOwn    func(n *node, e *payload.Extensible)
+	copyID   func(e *payload.Extensible) string
+	seeds    []string // addresses of servers this one dials (mesh worlds)
 }
 
 // svcTap is the Service the server starts / stops: it records the call and forwards to the real consensus service.
@@ -198,7 +202,10 @@ func newNode(w *world, o nodeOpts, log *evlog, clk *clock, dir string) (n *node,
 		}
 	}()
 	installHooks()
-	n = &node{w: w, id: o.id, log: log, done: make(chan struct{}), onOwn: o.onOwn, h0: o.h0, queuedH: map[int]bool{}}
+	n = &node{w: w, id: o.id, log: log, done: make(chan struct{}), onOwn: o.onOwn, h0: o.h0, queuedH: map[int]bool{}, copyID: o.copyID}
+	if n.copyID == nil {
+		n.copyID = func(e *payload.Extensible) string { return sid(e.Hash()) }
+	}
 	n.bc, err = w.net.NewChain(nil, w.hook)
 	if err != nil {
 		return nil, err
@@ -219,7 +226,7 @@ func newNode(w *world, o nodeOpts, log *evlog, clk *clock, dir string) (n *node,
 	n.srv, err = network.NewServer(network.ServerConfig{
 		Addresses: []config.AnnounceableAddress{{Address: "127.0.0.1:0"}}, MinPeers: o.minPeers, MaxPeers: 64, Net: w.net.Magic, Relay: true,
 		UserAgent: "/verif-consensus-node/", ProtoTickInterval: 50 * time.Millisecond, PingInterval: time.Hour, PingTimeout: 2 * time.Hour,
-		DialTimeout: time.Second, BroadcastFactor: o.bcast, ExtensiblePoolSize: o.extCap,
+		DialTimeout: time.Second, BroadcastFactor: o.bcast, ExtensiblePoolSize: o.extCap, Seeds: o.seeds, AttemptConnPeers: 8,
 	}, n.bc, n.bc.GetStateSyncModule(), zap.NewNop())
 	if err != nil {
 		n.bc.Close()
@@ -282,7 +289,7 @@ func newNode(w *world, o nodeOpts, log *evlog, clk *clock, dir string) (n *node,
 		}
 		bySvc.Store(n.svc, n)
 		n.srv.AddConsensusService(svcTap{n}, func(e *payload.Extensible) error {
-			n.emit(map[string]any{"event": "deliver", "x": sid(e.Hash())})
+			n.emit(map[string]any{"event": "deliver", "x": n.copyID(e), "hx": sid(e.Hash())})
 			return n.svc.OnPayload(e)
 		}, func(tx *transaction.Transaction) {
 			n.emit(map[string]any{"event": "ontx", "t": sid(tx.Hash())})
